@@ -645,6 +645,13 @@ func (e *Engine) verifyFunction(fc *FuncContract) (*VC, error) {
 			vc.eventArg(m[1], resultSlot)
 		}
 	}
+	if strings.Contains(fc.Theory, "strinj") {
+		vc.needItoa()
+		vc.declareOnceRaw("strinj", `(assert (forall ((a Int) (b Int) (c Int)) (! (=> (= (scat a b) (scat a c)) (= b c)) :pattern ((scat a b) (scat a c)))))
+(assert (forall ((a Int) (b Int) (c Int)) (! (=> (= (scat a c) (scat b c)) (= a b)) :pattern ((scat a c) (scat b c)))))
+(assert (forall ((x Int) (y Int)) (! (=> (= (itoa x) (itoa y)) (= x y)) :pattern ((itoa x) (itoa y)))))`)
+		vc.assume("theory strinj: string concatenation is cancellative on both sides and decimal formatting (strconv.FormatUint/FormatInt) is injective (facts about Go strings, assumed as axioms)")
+	}
 	st := &State{pc: "true", vars: map[string]string{}}
 	vc.svDeclare("G_alloc", "Int")
 	vc.fact("true", fmt.Sprintf("(> %s 1)", vc.svInit["G_alloc"]))
@@ -725,7 +732,15 @@ func (e *Engine) verifyFunction(fc *FuncContract) (*VC, error) {
 	vc.resolveLoopShapes()
 	for i, em := range fc.Emits {
 		if len(res) > 0 {
-			vc.emitsObligation(fmt.Sprint(vc.ordinal("emits")), res[0], em[0], em[1], fn.Pos())
+			if strings.Contains(em[1], ",") {
+				var want []string
+				for _, w := range strings.Split(em[1], ",") {
+					want = append(want, strings.TrimSpace(w))
+				}
+				vc.emitsSeqObligation(fmt.Sprint(vc.ordinal("emits")), res[0], em[0], want, fn.Pos())
+			} else {
+				vc.emitsObligation(fmt.Sprint(vc.ordinal("emits")), res[0], em[0], em[1], fn.Pos())
+			}
 			if i < len(fc.EmitsProps) && len(fc.EmitsProps[i]) > 0 {
 				vc.obls[len(vc.obls)-1].Props = fc.EmitsProps[i]
 			}
